@@ -141,9 +141,9 @@ def run(rep, tier, seed):
                            optional={"added by the library (long name).bin"} if b.nearfull else set())
         s += t2 + ["unmount"]
         scripts.append(s)
-        metas.append((b, len(head), len(t1), e1, len(mut), e2, victim, key))
+        metas.append((b, len(head), len(t1), e1, len(mut), e2, victim, key, dpath == []))
     judged = sessions.run_judged(scripts, flags=("regions", "wfs", "infos"), shards=16)
-    for jd, (b, nhead, nt1, e1, nmut, e2, victim, key) in zip(judged, metas):
+    for jd, (b, nhead, nt1, e1, nmut, e2, victim, key, in_root) in zip(judged, metas):
         rep.count()
         label = key
         ops = jd.ops
@@ -167,10 +167,11 @@ def run(rep, tier, seed):
         if stray:
             oi, r = stray[0]
             rep.violation("[C08 %s] %s writes %d bytes at device offset %d: %s" % (label, sc.short(ops[oi].line, 50), r[4], r[3], r[0]), {"script": jd.script[:oi + 1]}); continue
-        if bad and bad[0].kind == "err" and bad[0].payload.split(" ")[0] in ("WriteZero", "NotEnoughSpace") and b.bits != 32 \
-                and "fixed-root-full-writezero" in sc.KF:
-            # the small fixed root of this image is full (or the volume is): recorded finding D5, nothing more is claimed for this image
-            rep.known_finding(sc.kf_text("fixed-root-full-writezero"))
+        if bad and bad[0].kind == "err" and bad[0].payload.split(" ")[0] == "NotEnoughSpace" and b.bits != 32 and in_root \
+                and b.root_entries - getattr(b, "root_used_slots", 0) < 4:
+            # the small fixed root of this image has no room for the new entry: NotEnoughSpace is the documented outcome
+            # (the histories of C01/C03/C05 judge what such a failure may leave behind); nothing more is claimed for this image
+            rep.cov["root_full_images"] = rep.cov.get("root_full_images", 0) + 1
             continue
         if bad:
             rep.violation("[C08 %s] modifying the foreign volume failed: %s -> %s %s" % (label, sc.short(bad[0].line, 50), bad[0].kind, bad[0].payload[:40]),
